@@ -916,7 +916,8 @@ func zzC06BTable(rng *rand.Rand) (tab []zzC06Entry, pool [][]string) {
 
 // zzC06BLongChain adds a chain of 7 to 33 CNAME entries over fresh names that
 // ends in a self entry, a cycle of two or three further names, back at its
-// head, in an address, or in a name the table does not mention; the entries
+// head, in an address, or in a name the table does not mention -- or a short
+// lead-in into a cycle of 7 to 33 names; the entries
 // are scattered over the table and head, a name in the middle, the name
 // entered after eight links and the tail join the pool of query names.
 func zzC06BLongChain(rng *rand.Rand, tab []zzC06Entry, pool [][]string) (t2 []zzC06Entry, p2 [][]string) {
@@ -925,11 +926,36 @@ func zzC06BLongChain(rng *rand.Rand, tab []zzC06Entry, pool [][]string) (t2 []zz
 		return append([]string{fmt.Sprintf("%s%d", kind, i)}, base...)
 	}
 
-	l := []int{7, 8, 9, 16, 33}[rng.Intn(5)]
-	end := rng.Intn(6)
 	cn := func(from, to []string) (e zzC06Entry) {
 		return zzC06Entry{N: from, K: "cname", T: to, DS: rng.Intn(3)}
 	}
+
+	if rng.Intn(2) == 0 {
+		// A ring: a lead-in of 1, 2 or 9 names into a cycle of 7 to 33 names,
+		// i.e. a long cycle entered from a queried name outside it.
+		l := []int{1, 2, 9}[rng.Intn(3)]
+		c := []int{7, 8, 9, 10, 16, 17, 33}[rng.Intn(7)]
+		for i := 1; i <= l; i++ {
+			to := name("h", i+1)
+			if i == l {
+				to = name("g", 1)
+			}
+
+			tab = append(tab, cn(name("h", i), to))
+		}
+
+		for i := 1; i <= c; i++ {
+			tab = append(tab, cn(name("g", i), name("g", i%c+1)))
+		}
+
+		rng.Shuffle(len(tab), func(i, j int) { tab[i], tab[j] = tab[j], tab[i] })
+		pool = append(pool, name("h", 1), name("h", 1), name("h", (l+1)/2), name("g", 1), name("g", c/2))
+
+		return tab, pool
+	}
+
+	l := []int{7, 8, 9, 16, 33}[rng.Intn(5)]
+	end := rng.Intn(6)
 
 	for i := 1; i <= l; i++ {
 		to := name("h", i+1)
